@@ -25,7 +25,9 @@ CONSTANTS
   RChks, OChks, WChks, Fs,    \* checker ids / value functions the lazily generated programs may use
   MaxSessions, MaxChanges, MaxRoots, MaxBU,
   CheckLeftoverOfAborted,     \* TRUE: check_task validates the leftover dependencies of a task without output (defect F2)
-  EmitScenarios               \* TRUE: print the scenario (program table + history) of every finished behaviour as JSON
+  EmitScenarios,              \* TRUE: print the scenario (program table + history) of every finished behaviour as JSON
+  Conform                     \* TRUE: used by PieConform.tla: programs and environment come from a recorded scenario, so the
+                              \* restrictions that only shape the explored space (Permitted, bounds, reporting discipline) are lifted
 
 VARIABLES
   st,      \* abstract store (PieCore)
@@ -35,9 +37,10 @@ VARIABLES
   env,     \* environment bookkeeping (bounds, faults, armed crash point, injected entry)
   viol,    \* violations raised by the last step (invariant: empty)
   kfs,     \* known-finding predicates that fired in the last step
-  hist     \* history of environment steps (scenario emission; not part of the VIEW)
+  hist,    \* history of environment steps (scenario emission; not part of the VIEW)
+  out      \* the events emitted by the last step (conformance checking; not part of the VIEW)
 
-vars == <<st, m, ctl, prog, env, viol, kfs, hist>>
+vars == <<st, m, ctl, prog, env, viol, kfs, hist, out>>
 view == <<st, m, ctl, prog, env, viol, kfs>>
 
 TaskIds == 1..NT
@@ -65,6 +68,9 @@ Emit(evs, pr) ==
      /\ m' = Norm(r.m)
      /\ viol' = r.v
      /\ kfs' = r.k
+     /\ out' = evs
+
+Quiet == UNCHANGED <<st, m, viol, kfs>> /\ out' = <<>>
 
 Ev(name) == [ev |-> name]
 
@@ -92,7 +98,7 @@ Init ==
   /\ prog = <<>>
   /\ env = [sessions |-> 0, changes |-> 0, bus |-> 0, fault |-> {}, boom |-> <<0, 0>>, injKey |-> <<>>, dirty |-> {},
             aborted |-> FALSE]
-  /\ viol = {} /\ kfs = {} /\ hist = <<>>
+  /\ viol = {} /\ kfs = {} /\ hist = <<>> /\ out = <<>>
 
 (***************************************************************************)
 (* Environment actions (between API calls).                                 *)
@@ -105,39 +111,40 @@ ChooseInit ==
        /\ st' = [st EXCEPT !.res = init]
        /\ hist' = <<[s |-> "init", v |-> init]>>
   /\ ctl' = [ctl EXCEPT !.mode = "idle"]
+  /\ out' = <<>>
   /\ UNCHANGED <<m, prog, env, viol, kfs>>
 
 ExtSet(r, v) ==
-  /\ ctl.mode = "idle" /\ env.changes < MaxChanges /\ st.res[r] # v
+  /\ ctl.mode = "idle" /\ (Conform \/ (env.changes < MaxChanges /\ st.res[r] # v))
   /\ Emit(<<[ev |-> "ext_set", r |-> r, v |-> v]>>, prog)
   /\ env' = [env EXCEPT !.changes = @ + 1, !.dirty = @ \cup {r}]
   /\ hist' = Append(hist, [s |-> "set", r |-> r, v |-> v])
   /\ UNCHANGED <<ctl, prog>>
 
 SetFault(r, on) ==
-  /\ Family = "FAULT" /\ ctl.mode = "idle" /\ env.changes < MaxChanges /\ (r \in env.fault) # on
+  /\ (Conform \/ (Family = "FAULT" /\ env.changes < MaxChanges /\ (r \in env.fault) # on)) /\ ctl.mode = "idle"
   /\ Emit(<<[ev |-> "fault", r |-> r, on |-> on]>>, prog)
   /\ env' = [env EXCEPT !.changes = @ + 1, !.fault = IF on THEN @ \cup {r} ELSE @ \ {r}]
   /\ hist' = Append(hist, [s |-> "fault", r |-> r, on |-> on])
   /\ UNCHANGED <<ctl, prog>>
 
 BoomArm(t, pc) ==
-  /\ Family = "ABORT" /\ ctl.mode = "idle" /\ env.boom = <<0, 0>> /\ ~env.aborted
+  /\ (Conform \/ (Family = "ABORT" /\ env.boom = <<0, 0>> /\ ~env.aborted)) /\ ctl.mode = "idle"
   /\ Emit(<<[ev |-> "boom_arm", t |-> t, pc |-> pc]>>, prog)
   /\ env' = [env EXCEPT !.boom = <<t, pc>>]
   /\ hist' = Append(hist, [s |-> "boom", t |-> t, pc |-> pc])
   /\ UNCHANGED <<ctl, prog>>
 
 BoomClr ==
-  /\ Family = "ABORT" /\ ctl.mode = "idle" /\ env.boom # <<0, 0>>
+  /\ (Conform \/ (Family = "ABORT" /\ env.boom # <<0, 0>>)) /\ ctl.mode = "idle"
   /\ Emit(<<Ev("boom_clr")>>, prog)
   /\ env' = [env EXCEPT !.boom = <<0, 0>>]
   /\ hist' = Append(hist, [s |-> "boom_clr"])
   /\ UNCHANGED <<ctl, prog>>
 
 StartSession(probe) ==
-  /\ ctl.mode = "idle" /\ env.sessions < MaxSessions
-  /\ probe => st.known # <<>>
+  /\ ctl.mode = "idle" /\ (Conform \/ env.sessions < MaxSessions)
+  /\ (probe /\ ~Conform) => st.known # <<>>
   /\ Emit(<<[ev |-> "sess_start", probe |-> probe]>>, prog)
   /\ ctl' = [ctl EXCEPT !.mode = "sess", !.cons = {}, !.errs = 0, !.todo = IF probe THEN st.known ELSE <<>>,
                         !.roots = 0, !.inBU = FALSE, !.stack = <<>>, !.ret = FALSE]
@@ -157,7 +164,7 @@ ScenarioRec ==
 EndSession ==
   /\ ctl.mode \in {"sess", "aborted"} /\ ctl.stack = <<>>
   /\ (EmitScenarios /\ env.sessions = MaxSessions) => PrintT(ToJson(ScenarioRec))
-  /\ ctl.mode = "sess" => (ctl.todo = <<>> /\ (ctl.roots > 0 \/ ctl.inBU))
+  /\ (ctl.mode = "sess" /\ ~Conform) => (ctl.todo = <<>> /\ (ctl.roots > 0 \/ ctl.inBU))
   /\ Emit(<<[ev |-> "sess_end", errs |-> ctl.errs, res |-> st.res, dump |-> DumpOf, trk_same |-> TRUE]>>, prog)
   /\ ctl' = [ctl EXCEPT !.mode = "idle", !.cons = {}]
   /\ UNCHANGED <<prog, env, hist>>
@@ -167,7 +174,7 @@ AddAct(a) == IF hist # <<>> /\ Last(hist).s = "session"
 
 RootReq(t) ==
   /\ ctl.mode = "sess" /\ ctl.stack = <<>>
-  /\ IF ctl.todo # <<>> THEN t = Head(ctl.todo) ELSE (m.probe = FALSE /\ ctl.roots < MaxRoots)
+  /\ Conform \/ (IF ctl.todo # <<>> THEN t = Head(ctl.todo) ELSE (m.probe = FALSE /\ ctl.roots < MaxRoots))
   /\ Emit(<<[ev |-> "root_call", t |-> t], Ev("build_start"), [ev |-> "require_start", t |-> t, c |-> "any"]>>, prog)
   /\ ctl' = [ctl EXCEPT !.stack = <<Frame("root", t), Frame("mc", t)>>, !.roots = @ + 1,
                         !.todo = IF @ = <<>> THEN @ ELSE Tail(@)]
@@ -214,13 +221,13 @@ McStep ==
   /\ LET t == Top.t IN
      IF t \in ctl.cons THEN
        /\ ctl' = [ctl EXCEPT !.stack = Pop(@), !.ret = TRUE, !.retv = st.out[t]]
-       /\ UNCHANGED <<st, m, viol, kfs>>
+       /\ Quiet
      ELSE IF st.out[t] = NONE /\ ~CheckLeftoverOfAborted THEN
        /\ Emit(StartExecEvents(t), prog)
        /\ ctl' = [ctl EXCEPT !.stack = ReplaceTop(@, StartExecFrames(t, FALSE))]
      ELSE
        /\ ctl' = [ctl EXCEPT !.stack = ReplaceTop(@, [Frame("chk", t) EXCEPT !.ds = st.deps[t], !.i = 1])]
-       /\ UNCHANGED <<st, m, viol, kfs>>
+       /\ Quiet
   /\ UNCHANGED <<prog, env, hist>>
 
 Abort(kind, evs, pr, envBase) ==
@@ -237,7 +244,7 @@ ChkStep ==
      IN IF i > Len(Top.ds) THEN
           IF st.out[t] # NONE THEN
             /\ ctl' = [ctl EXCEPT !.stack = Pop(@), !.ret = TRUE, !.retv = st.out[t], !.cons = @ \cup {t}]
-            /\ UNCHANGED <<st, m, viol, kfs, env>>
+            /\ Quiet /\ UNCHANGED env
           ELSE
             /\ Emit(StartExecEvents(t), prog)
             /\ ctl' = [ctl EXCEPT !.stack = ReplaceTop(@, StartExecFrames(t, FALSE))]
@@ -334,7 +341,7 @@ ExecStep ==
          evOp == [ev |-> "op", t |-> t, pc |-> pc, acc |-> acc]
      IN
      \E op \in (IF key \in DOMAIN prog THEN {prog[key]} ELSE OpChoices(t, pc, acc)) :
-       /\ Permitted(t, pc, acc, op)       \* an existing entry reached on a path where it is not permitted: behaviour cut
+       /\ Conform \/ Permitted(t, pc, acc, op)   \* an existing entry reached on a path where it is not permitted: behaviour cut
        /\ prog' = IF key \in DOMAIN prog THEN prog ELSE (key :> op) @@ prog
        /\ LET injected == Family = "INJ" /\ ~WellFormed(t, op)
               envI == IF injected THEN [env EXCEPT !.injKey = key] ELSE env
@@ -357,7 +364,7 @@ ExecStep ==
                     ELSE /\ Emit(pre \o <<[ev |-> "stamp_reader", c |-> op.c, r |-> r, id |-> 1, s |-> s],
                                           [ev |-> "read_end", r |-> r, c |-> op.c, s |-> s],
                                           [ev |-> "rd_use", id |-> 1]>>, prog')
-                         /\ ctl' = [ctl EXCEPT !.stack = ReplaceTop(@, [Top EXCEPT !.pc = pc + 1, !.acc = Mix(acc, s, NA)])]
+                         /\ ctl' = [ctl EXCEPT !.stack = ReplaceTop(@, [Top EXCEPT !.pc = pc + 1, !.acc = Mix(acc, RObs(op.c, v), NA)])]
                          /\ env' = envI
             [] op.k \in {"wr", "wt"} ->
                  LET r == op.x
@@ -396,7 +403,7 @@ RequireReturn ==
   /\ LET o == ctl.retv
          s == OStamp(Top.c, o)
      IN /\ Emit(<<[ev |-> "require_end", t |-> Top.u, c |-> Top.c, s |-> s, o |-> o]>>, prog)
-        /\ ctl' = [ctl EXCEPT !.stack = ReplaceTop(@, [Top EXCEPT !.k = "ex", !.pc = @ + 1, !.acc = Mix(@, s, NA)]),
+        /\ ctl' = [ctl EXCEPT !.stack = ReplaceTop(@, [Top EXCEPT !.k = "ex", !.pc = @ + 1, !.acc = Mix(@, OObs(Top.c, o), NA)]),
                               !.ret = FALSE,
                               !.cons = IF ctl.inBU THEN @ \cup {Top.u} ELSE @]
   /\ UNCHANGED <<prog, env, hist>>
@@ -405,7 +412,8 @@ RequireReturn ==
 (* Bottom-up context.                                                       *)
 (***************************************************************************)
 BuBegin ==
-  /\ ctl.mode = "sess" /\ ctl.stack = <<>> /\ ~ctl.inBU /\ ctl.roots = 0 /\ ~m.probe /\ env.bus < MaxBU /\ st.known # <<>>
+  /\ ctl.mode = "sess" /\ ctl.stack = <<>> /\ ~ctl.inBU
+  /\ Conform \/ (ctl.roots = 0 /\ ~m.probe /\ env.bus < MaxBU /\ st.known # <<>>)
   /\ Emit(<<Ev("bu_begin")>>, prog)
   /\ ctl' = [ctl EXCEPT !.inBU = TRUE, !.mode = "busched", !.todo = SetToSeq(env.dirty)]
   /\ env' = [env EXCEPT !.bus = @ + 1, !.dirty = {}]
@@ -414,15 +422,15 @@ BuBegin ==
 
 \* BottomUpContext::schedule_tasks_affected_by (bottom_up.rs:34)
 BuSched ==
-  /\ ctl.mode = "busched" /\ ctl.todo # <<>>
-  /\ LET r == Head(ctl.todo)
-         evs == <<[ev |-> "bu_sched", r |-> r]>> \o SchedByRes(r, {"rd", "wr"})
-     IN /\ Emit(evs, prog)
-        /\ ctl' = [ctl EXCEPT !.todo = Tail(@), !.errs = @ + ErrCount(evs)]
+  /\ ctl.mode = "busched"
+  /\ \E r \in (IF Conform THEN ResIds ELSE IF ctl.todo = <<>> THEN {} ELSE {Head(ctl.todo)}) :
+       LET evs == <<[ev |-> "bu_sched", r |-> r]>> \o SchedByRes(r, {"rd", "wr"})
+       IN /\ Emit(evs, prog)
+          /\ ctl' = [ctl EXCEPT !.todo = IF @ = <<>> THEN @ ELSE Tail(@), !.errs = @ + ErrCount(evs)]
   /\ UNCHANGED <<prog, env, hist>>
 
 BuRun ==
-  /\ ctl.mode = "busched" /\ ctl.todo = <<>>
+  /\ ctl.mode = "busched" /\ (Conform \/ ctl.todo = <<>>)
   /\ Emit(<<Ev("bu_run"), Ev("build_start")>>, prog)
   /\ ctl' = [ctl EXCEPT !.mode = "sess", !.stack = <<Frame("bu", 0)>>]
   /\ UNCHANGED <<prog, env, hist>>
@@ -478,13 +486,13 @@ McbStep ==
   /\ LET u == Top.t IN
      IF u \in ctl.cons THEN
        /\ ctl' = [ctl EXCEPT !.stack = Pop(@), !.ret = TRUE, !.retv = st.out[u]]
-       /\ UNCHANGED <<st, m, viol, kfs>>
+       /\ Quiet
      ELSE IF st.out[u] = NONE THEN
        /\ Emit(StartExecEvents(u), prog)
        /\ ctl' = [ctl EXCEPT !.stack = ReplaceTop(@, StartExecFrames(u, TRUE))]
      ELSE
        /\ ctl' = [ctl EXCEPT !.stack = ReplaceTop(@, Frame("rsn", u))]
-       /\ UNCHANGED <<st, m, viol, kfs>>
+       /\ Quiet
   /\ UNCHANGED <<prog, env, hist>>
 
 \* require_scheduled_now (bottom_up.rs:168)
@@ -493,12 +501,12 @@ RsnStep ==
   /\ LET u == Top.t IN
      IF ctl.ret /\ Top.wait = u THEN        \* the required task itself was executed: return its output
        /\ ctl' = [ctl EXCEPT !.stack = Pop(@)]
-       /\ UNCHANGED <<st, m, viol, kfs>>
+       /\ Quiet
      ELSE
        LET cand == {q \in st.queue : q = u \/ Reach(st, u, q)} IN
        IF cand = {} THEN
          /\ ctl' = [ctl EXCEPT !.stack = Pop(@), !.ret = TRUE, !.retv = st.out[u]]
-         /\ UNCHANGED <<st, m, viol, kfs>>
+         /\ Quiet
        ELSE \E q \in Least(cand) :
          /\ Emit(StartExecEvents(q), prog)
          /\ ctl' = [ctl EXCEPT !.stack = ReplaceTop(@, [Top EXCEPT !.wait = q]) \o <<Frame("eas", q), StartExecFrames(q, TRUE)>>,
@@ -548,7 +556,7 @@ StoreWellFormed ==
 
 \* K-findings must be explained by the listed predicates only
 NoKF == kfs = {}
-KnownOnly == kfs \subseteq {<<"C03", "K1_stale_requirer_after_top_down">>, <<"C08", "K2_two_checkers_one_target">>,
+KnownOnly == kfs \subseteq {<<"C03", "K1_stale_requirer_after_top_down">>, <<"C01", "K1_stale_requirer_after_top_down">>, <<"C08", "K2_two_checkers_one_target">>,
                             <<"C20", "K3_stale_writer_overlap">>, <<"C20", "K4_stale_require_cycle">>,
                             <<"C20", "K5_stale_writer_hidden">>, <<"C20", "K5_stale_reader_hidden">>,
                             <<"C19", "K3_stale_writer_overlap">>, <<"C19", "K4_stale_require_cycle">>,
